@@ -317,6 +317,12 @@ class Ev:
     def s_Pass(self, st):
         pass
 
+    def s_Break(self, st):
+        self.emit("break", st)          # with the guards and loops it happens under: "when does this loop stop early?"
+
+    def s_Continue(self, st):
+        self.emit("continue", st)
+
     def s_Import(self, st):
         for a in st.names:
             local = a.asname or a.name.split(".")[0]
